@@ -334,7 +334,7 @@ def check(ctx):
     uses = prog.fn_value_uses(lambda n: n == R.path)
     ctx.check(not uses, "C02.d", "runner-not-used-as-value", "", "runner is never taken as a fn value",
               "the runner is used as a function value in %s" % [u[0].path for u in uses])
-    ctx.floor("C02.d", len(callers), 8, "runner call sites (1+1+5+replay)")
+    ctx.floor("C02.d", len(callers), 4, "runner call sites (one per Command::apply impl + replay)")
     run_def = [b for b in prog.bodies if lib.tail(b.path, 2) == A.names(prog)["callback_run"]]
     if ctx.floor("C02.d", len(run_def), 1, "SystemCommandCallback::run"):
         cr = prog.callers_of(lambda n: n == run_def[0].path)
